@@ -61,12 +61,15 @@ class VecSpec:
     uses_int: bool = False
     nested: str = "nested_samples"
     doc: str = ""
+    lsum: str = "lsum"                                    # name of the sum primitive in the target namespace
+    vec_calls: Dict[str, str] = field(default_factory=dict)   # python callee of two vectors -> Lean binary operator (elementwise)
 
 
 class _V:
     def __init__(self, spec: VecSpec):
         self.spec = spec
         self.ver: Dict[str, int] = {}
+        self.local_attrs: Dict[str, Tuple[str, str]] = {}
 
     def fail(self, node, why):
         where = f"{self.spec.cls + '.' if self.spec.cls else ''}{self.spec.func}"
@@ -84,12 +87,24 @@ class _V:
             if e.id in env:
                 return env[e.id]
             self.fail(e, "undeclared name")
-        if isinstance(e, ast.Attribute) and isinstance(e.value, ast.Name) and e.value.id == "self" and e.attr in sp.self_attrs:
-            ln, ty = sp.self_attrs[e.attr]
+        if isinstance(e, ast.Attribute) and isinstance(e.value, ast.Name) and e.value.id == "self" \
+                and (e.attr in self.local_attrs or e.attr in sp.self_attrs):
+            ln, ty = self.local_attrs.get(e.attr) or sp.self_attrs[e.attr]
             return ty, ln
         if isinstance(e, ast.Constant) and e.value is None:
             return NONE, "none"
         text = ast.unparse(e)
+        if text == "-np.inf":
+            return LOG, "0"                                  # the log of zero
+        if text == "np.log(2)":
+            return LOG, "(1 + 1)"
+        # `self.xs + [elem]` (Python lists, then np.array): a vector with one more entry
+        if isinstance(e, ast.BinOp) and isinstance(e.op, ast.Add) and isinstance(e.right, ast.List) and len(e.right.elts) == 1:
+            tl, l = self.expr(e.left, env)
+            te, x = self.expr(e.right.elts[0], env)
+            if tl == VLOG and te == LOG:
+                return VLOG, f"({l} ++ [{x}])"
+            self.fail(e, "list concatenation outside the fragment")
         if isinstance(e, ast.Call):
             fn = ast.unparse(e.func)
             if fn in ("np.array", "np.asarray") and len(e.args) == 1 and not e.keywords:
@@ -98,7 +113,7 @@ class _V:
                 t, v = self.expr(e.args[0], env)
                 if t != VLOG:
                     self.fail(e, "logsumexp of something that is not a log-weight vector")
-                return LOG, f"(lsum {v})"
+                return LOG, f"({sp.lsum} {v})"
             if fn == "np.max" and len(e.args) == 1 and not e.keywords:
                 t, v = self.expr(e.args[0], env)
                 if t != VLOG:
@@ -129,6 +144,18 @@ class _V:
                     if tn == NAT and tp == VLIN:
                         return IDX, f"(choiceIdx {p} {n} u)"
                 self.fail(e, "np.random.choice in a form outside the fragment")
+            if fn == "np.logaddexp" and len(e.args) == 2 and not e.keywords:
+                ta, a = self.expr(e.args[0], env)
+                tb, b = self.expr(e.args[1], env)
+                if ta == VLOG and tb == VLOG:
+                    return VLOG, f"(List.zipWith (· + ·) {a} {b})"
+                self.fail(e, "np.logaddexp of something else than two log vectors")
+            if fn in sp.vec_calls and len(e.args) == 2 and not e.keywords:
+                ta, a = self.expr(e.args[0], env)
+                tb, b = self.expr(e.args[1], env)
+                if ta == VLOG and tb == VLOG:
+                    return VLOG, f"(List.zipWith (· {sp.vec_calls[fn]} ·) {a} {b})"
+                self.fail(e, "vector callee on something else than two log vectors")
             if fn in sp.calls and not e.keywords:
                 ln, atys, rty = sp.calls[fn]
                 args = [self.expr(a, env) for a in e.args]
@@ -136,6 +163,18 @@ class _V:
                     self.fail(e, "call with arguments of other types than declared")
                 return rty, "(" + " ".join([ln] + [v for _, v in args]) + ")"
             self.fail(e, "call outside the fragment")
+        if isinstance(e, ast.Subscript) and isinstance(e.slice, ast.Slice) and e.slice.step is None:
+            t, v = self.expr(e.value, env)
+            lo = None if e.slice.lower is None else ast.unparse(e.slice.lower)
+            hi = None if e.slice.upper is None else ast.unparse(e.slice.upper)
+            if t == VLOG and (lo, hi) in ((None, "-1"), ("1", None), ("1", "-1")):
+                return VLOG, {(None, "-1"): f"{v}.dropLast", ("1", None): f"{v}.tail", ("1", "-1"): f"{v}.tail.dropLast"}[(lo, hi)]
+            self.fail(e, "slice outside the fragment")
+        if isinstance(e, ast.Subscript) and ast.unparse(e.slice) == "-1":
+            t, v = self.expr(e.value, env)
+            if t == VLOG:
+                return LOG, f"({v}.getLastD 0)"
+            self.fail(e, "[-1] of something that is not a log vector")
         if isinstance(e, ast.Subscript):
             # np.where(a > b)[0]
             if (isinstance(e.value, ast.Call) and ast.unparse(e.value.func) == "np.where" and ast.unparse(e.slice) == "0"
@@ -169,6 +208,8 @@ class _V:
                 op = "*" if isinstance(e.op, ast.Add) else "/"
                 if tl == VLOG and tr == LOG:
                     return VLOG, f"({l}.map (fun x => x {op} {r}))"
+                if tl == VLOG and tr == VLOG:
+                    return VLOG, f"(List.zipWith (· {op} ·) {l} {r})"
                 if tl == LOG and tr == LOG:
                     return LOG, f"({l} {op} {r})"
             self.fail(e, "arithmetic outside the fragment")
@@ -211,7 +252,15 @@ class _V:
                 parts = [self.expr(x, env) for x in st.value.elts]
                 return f"{pad}.ok (" + ", ".join(v for _, v in parts) + ")"
             t, v = self.expr(st.value, env)
-            return f"{pad}{v}" if self.spec.result in ("K", "Nat") else f"{pad}.ok {v}"
+            return f"{pad}{v}" if self.spec.result in ("K", "Nat", "List K") else f"{pad}.ok {v}"
+        if isinstance(st, ast.Assign) and len(st.targets) == 1 and isinstance(st.targets[0], ast.Attribute) \
+                and isinstance(st.targets[0].value, ast.Name) and st.targets[0].value.id == "self":
+            # an attribute that is only read back by this function: a local
+            t, v = self.expr(st.value, env)
+            attr = st.targets[0].attr
+            ln = self.fresh("self_" + attr)
+            self.local_attrs[attr] = (ln, t)
+            return f"{pad}let {ln} : {LEAN_TY[t]} := {v}\n" + self.block(rest, env, ind)
         if isinstance(st, ast.Assign) and len(st.targets) == 1 and isinstance(st.targets[0], ast.Name):
             t, v = self.expr(st.value, env)
             name = st.targets[0].id
